@@ -4,6 +4,7 @@ import SdnsVerif.Lemmas.Nsec
 import SdnsVerif.Model.Nsec3
 import SdnsVerif.Lemmas.Nsec3
 import SdnsVerif.Model.Admission
+import SdnsVerif.Model.ProofExpiry
 import SdnsVerif.Gen.C02
 /-!
 # C02 — denial of existence is accepted or synthesised only when proven
@@ -490,6 +491,112 @@ example : cutRecorded
 example : (authority .nsec3 (.ok true) (.ok .nxdomain) true false).aggressive = true := by decide
 
 end admission
+
+/-! ## how long an admitted proof may be used -/
+
+section expiry
+open SdnsVerif.Model.ProofExpiry
+
+theorem minList_le (m : Int) (l : List Int) : minList m l ≤ m ∧ ∀ x ∈ l, minList m l ≤ x := by
+  induction l generalizing m with
+  | nil => exact ⟨Int.le_refl _, fun x hx => nomatch hx⟩
+  | cons y t ih =>
+    unfold minList
+    by_cases hlt : y < m
+    · simp only [hlt, if_true]
+      obtain ⟨h1, h2⟩ := ih y
+      refine ⟨by omega, ?_⟩
+      intro x hx
+      rcases List.mem_cons.mp hx with rfl | hx
+      · exact h1
+      · exact h2 x hx
+    · simp only [hlt, if_false]
+      obtain ⟨h1, h2⟩ := ih m
+      refine ⟨h1, ?_⟩
+      intro x hx
+      rcases List.mem_cons.mp hx with rfl | hx
+      · omega
+      · exact h2 x hx
+
+/-- **A cached proof never outlives any of its components.**  The expiry
+`denialProofExpiry` assigns (to the SOA entry, to every NSEC/NSEC3 RRset
+entry, and — with the cut cache's ceiling — to a subtree cut) is strictly
+after `now` and at or before: the configured ceiling, the delegation-cut
+deadline, `now + TTL` of every record, `now + SOA MINIMUM`, and for EVERY
+covering RRSIG its expiration, `now +` its header TTL and `now +` its
+original TTL.  There is no floor and no "latest signature wins". -/
+theorem proof_expiry_le_every_component (now : Int) (maxTTL : Nat) (cut : Option Int) (ttls : List Nat)
+    (soaMin : Option Nat) (sigs : List Sig) (e : Int)
+    (h : proofExpiry now maxTTL cut ttls soaMin sigs = some e) :
+    now < e ∧ e ≤ now + maxTTL ∧ (∀ c, cut = some c → e ≤ c) ∧ (∀ t ∈ ttls, e ≤ now + t) ∧
+    (∀ m, soaMin = some m → e ≤ now + m) ∧
+    (∀ s ∈ sigs, e ≤ s.exp ∧ e ≤ now + s.ttl ∧ e ≤ now + s.orig) := by
+  unfold proofExpiry at h
+  simp only at h
+  split at h
+  · cases h
+  · rename_i hpos
+    simp only [Option.some.injEq] at h
+    subst h
+    obtain ⟨hm, hall⟩ := minList_le (Int.ofNat maxTTL) (candidates now cut ttls soaMin sigs)
+    have hmem : ∀ x, x ∈ candidates now cut ttls soaMin sigs →
+        now + minList (Int.ofNat maxTTL) (candidates now cut ttls soaMin sigs) ≤ now + x :=
+      fun x hx => by have := hall x hx; omega
+    have hm' : minList (Int.ofNat maxTTL) (candidates now cut ttls soaMin sigs) ≤ (maxTTL : Int) := hm
+    refine ⟨by omega, by omega, ?_, ?_, ?_, ?_⟩
+    · intro c hc
+      have := hmem (c - now) (by unfold candidates; simp [hc])
+      omega
+    · intro t ht
+      exact hmem (Int.ofNat t) (by unfold candidates; simp only [List.mem_append, List.mem_map]; exact Or.inl (Or.inl (Or.inr ⟨t, ht, rfl⟩)))
+    · intro m hm'
+      exact hmem (Int.ofNat m) (by unfold candidates; simp [hm'])
+    · intro s hs
+      have hin : ∀ x ∈ [Int.ofNat s.ttl, Int.ofNat s.orig, s.exp - now], x ∈ candidates now cut ttls soaMin sigs := by
+        intro x hx
+        unfold candidates
+        simp only [List.mem_append, List.mem_flatMap]
+        exact Or.inr ⟨s, hs, hx⟩
+      have h1 := hmem _ (hin (s.exp - now) (by simp))
+      have h2 := hmem _ (hin (Int.ofNat s.ttl) (by simp))
+      have h3 := hmem _ (hin (Int.ofNat s.orig) (by simp))
+      refine ⟨by omega, by simpa using h2, by simpa using h3⟩
+
+/-- a lookup that synthesises from the proof cache found the zone's SOA entry
+and every RRset it evaluated still unexpired (entries at or past their
+expiry are invisible to the evaluator). -/
+theorem lookupProof_uses_live_only (st : State) (q : Name) (t : Nat) (rc : Rcode)
+    (h : lookupProof st q t = some rc) :
+    ∃ z ∈ st.zones, nameInZone q z.zone = true ∧ st.now < z.soaExpires ∧
+      ∃ p, evaluateAggressiveNSEC q t 1 z.zone
+        ((z.entries.filter fun e => st.now < e.expires).map (·.nsec)) = .ok (rc, p) := by
+  unfold lookupProof at h
+  simp only at h
+  generalize hl : ((st.zones.filter fun z => nameInZone q z.zone).mergeSort fun a b => a.zone.length ≥ b.zone.length) = l at h
+  have hsub : ∀ z ∈ l, z ∈ st.zones ∧ nameInZone q z.zone = true := by
+    intro z hz
+    rw [← hl] at hz
+    have := (List.mergeSort_perm _ _).mem_iff.mp hz
+    simpa [List.mem_filter] using this
+  clear hl
+  induction l with
+  | nil => simp [lookupProof.go] at h
+  | cons z rest ih =>
+    unfold lookupProof.go at h
+    split at h
+    · rename_i hlive
+      split at h
+      · rename_i rc' p hev
+        simp only [Option.some.injEq] at h
+        subst h
+        exact ⟨z, (hsub z (List.mem_cons_self ..)).1, (hsub z (List.mem_cons_self ..)).2, hlive, p, hev⟩
+      · exact ih h (fun y hy => hsub y (List.mem_cons_of_mem _ hy))
+    · exact ih h (fun y hy => hsub y (List.mem_cons_of_mem _ hy))
+
+-- non-vacuity: two signatures over one RRset, the earlier one decides
+example : proofExpiry 0 10800 none [300] none [⟨300, 300, 7⟩, ⟨300, 300, 7200⟩] = some 7 := by decide
+
+end expiry
 
 /-! ## facts regenerated from the tree -/
 
